@@ -325,3 +325,33 @@ def _grid(case, ctx, obj, model, desc, pts, scale, feats):
         if clamped and not desc['rational'] and feats['domain_length_1'] is not None:
             ctx.check('C01.grid.corners_exact', list(ep[0]) == list(pts[0]) and list(ep[-1]) == list(pts[-1]), rc, f,
                       [pts[0], pts[-1]], [ep[0], ep[-1]])
+    # the documented segment options evaluate(start=, stop=) / (start_u=, stop_u=, ...): a different sub-range per direction,
+    # the grid of the current sample sizes spans exactly that sub-range
+    ns = steps[-1][1]
+    fr = [(F(1, 4), F(3, 4)), (F(1, 8), F(5, 8)), (F(3, 8), F(7, 8))]
+    sub = [(float(lo + (hi - lo) * a), float(lo + (hi - lo) * b)) for (lo, hi), (a, b) in zip(doms, fr)]
+    rc = dict(case, sample_sizes=[list(ns)], params=[[0.0]] * pd)
+    f = dict(feats, sample=list(ns), segment=True)
+    try:
+        if pd == 1:
+            obj.evaluate(start=sub[0][0], stop=sub[0][1])
+        else:
+            kw = {}
+            for a, nm in enumerate('uvw'[:pd]):
+                kw['start_' + nm], kw['stop_' + nm] = sub[a]
+            obj.evaluate(**kw)
+        ep = obj.evalpts
+    except Exception as e:
+        ctx.check('C01.grid.segment', False, rc, f, 'evaluate(start, stop) on a sub-range', repr(e))
+        return
+    total = 1
+    for n in ns:
+        total *= n
+    if ctx.check('C01.grid.segment.size', len(ep) == total, rc, f, total, len(ep)):
+        grids = [[F(a) + (F(b) - F(a)) * F(i, n - 1) for i in range(n)] for (a, b), n in zip(sub, ns)]
+        exp = {}
+        for idx in itertools.product(*[range(n) for n in ns]):
+            flat = idx[0] if pd == 1 else (idx[1] + ns[1] * idx[0] if pd == 2 else idx[2] + ns[2] * (idx[1] + ns[1] * idx[0]))
+            exp[flat] = R.eval_point(model, [g[i] for g, i in zip(grids, idx)])
+        ctx.close('C01.grid.segment.values', ep, [exp[i] for i in range(total)], 1e-9, scale, rc, f)
+    obj.evaluate()
